@@ -7,6 +7,7 @@ import (
 
 	"github.com/XiaoMi/Gaea/backend"
 	"github.com/XiaoMi/Gaea/models"
+	"github.com/XiaoMi/Gaea/mysql"
 
 	"verif/harness/simkit"
 )
@@ -457,6 +458,31 @@ func runHealth(r *simkit.Run, focus string) {
 			r.Logf("%s GetSlaveConn -> err=%v", name, err != nil)
 		})
 	}
+	lateError := func() {
+		n := w.replicas[tp.Choose(len(w.replicas))]
+		readers++
+		name := fmt.Sprintf("late%d", readers)
+		w.pendingFuse++
+		r.Steps++
+		r.Sched("late-error", n.script.name)
+		r.Go(name, func() {
+			defer func() { w.pendingFuse-- }()
+			err := mysql.NewConnTypeError(n.script.name, "connection error of a session that picked the replica earlier")
+			saved := n.script.getErr
+			n.script.getErr = "conn"
+			if !n.node.IsStatusUp() {
+				r.Probe("connection-error-reported-for-a-replica-that-is-down")
+			}
+			n.pool.onGet(n.pool, err) // the reference counts it
+			n.script.getErr = saved
+			sl.TryFuse(n.node, err)
+			for i := range pendingCheck {
+				if o := &pendingCheck[i]; o.task == name && !o.returned {
+					o.returned = true
+				}
+			}
+		})
+	}
 	advances := []time.Duration{100 * time.Millisecond, time.Second, time.Second, 2 * time.Second, 4 * time.Second, 5 * time.Second, 9 * time.Second, 30 * time.Second, 61 * time.Second}
 
 	ops := 0
@@ -498,7 +524,16 @@ func runHealth(r *simkit.Run, focus string) {
 			continue
 		}
 		ops++
-		c := tp.Choose(12)
+		c := tp.Choose(13)
+		if c == 12 {
+			// a connection error reported by a session that had picked the replica earlier: it reaches the
+			// breaker whatever the replica's status is by now (a replica that is down is not picked any more,
+			// so the ordinary client path never reports on it)
+			if w.pendingFuse == 0 {
+				lateError()
+			}
+			continue
+		}
 		if focus != "C28" {
 			// breaker-centred mix: more client errors, fewer probe script changes
 			c = []int{0, 3, 3, 4, 5, 5, 6, 7, 7, 8, 9, 10}[c]
